@@ -1114,4 +1114,353 @@ Section Main.
     rewrite (fields_trim_right_rev (length (rev (trim_left_space s)))) by lia.
     rewrite rev_involutive. unfold fields, trim_left_space. apply fields_trim_left.
   Qed.
+  (* ---------------------------------------------------------------- MnemonicToByteArray, evaluated *)
+
+  Lemma sval_bounds idxs : Forall (fun i => 0 <= i < 2048) idxs -> 0 <= sval idxs < 2048 ^ len idxs.
+  Proof.
+    induction 1 as [|c s Hc Hs IH].
+    - cbn. lia.
+    - rewrite sval_cons, len_cons, Z.pow_add_r, Z.pow_1_r by (pose proof (len_nonneg s); lia). nia.
+  Qed.
+
+  Lemma index_bounds ws idxs : Forall2 (fun w i => word_index w = Some i) ws idxs ->
+    Forall (fun i => 0 <= i < 2048) idxs.
+  Proof.
+    induction 1 as [|w i ws idxs Hw Hr IH]; constructor; auto.
+    apply (word_index_some _ _ Hw).
+  Qed.
+
+  Lemma is_mnemonic_valid_iff s : is_mnemonic_valid s = true <->
+    legal_count (len (fields s)) = true /\
+    exists idxs, Forall2 (fun w i => word_index w = Some i) (fields s) idxs.
+  Proof.
+    unfold is_mnemonic_valid, legal_count. rewrite <- forallb_in_word_map.
+    destruct (negb (len (fields s) mod 3 =? 0) || (len (fields s) <? 12) || (24 <? len (fields s))); cbn [negb].
+    - split; [discriminate|]. intros (E & _). discriminate.
+    - tauto.
+  Qed.
+
+  Lemma mtba_invalid raw s : is_mnemonic_valid s = false ->
+    mnemonic_to_byte_array H raw s = Err ErrInvalidMnemonic.
+  Proof. intros E. unfold mnemonic_to_byte_array. rewrite E. reflexivity. Qed.
+
+  Lemma mtba_eval raw s k idxs :
+    (4 <= k <= 8)%nat -> length (fields s) = (3 * k)%nat ->
+    Forall2 (fun w i => word_index w = Some i) (fields s) idxs ->
+    let N := sval idxs in
+    let e0 := pad_bytes (be_bytes (N / 2 ^ Z.of_nat k)) (4 * Z.of_nat k) in
+    mnemonic_to_byte_array H raw s =
+      if N mod 2 ^ Z.of_nat k =? csv k (hash0 H e0)
+      then Ok (if raw then e0 else pad_bytes (be_bytes N) (4 * Z.of_nat k + 1))
+      else Err ErrChecksumIncorrect.
+  Proof.
+    intros Hk Hl F N e0. unfold mnemonic_to_byte_array.
+    replace (is_mnemonic_valid s) with true.
+    2:{ symmetry. apply is_mnemonic_valid_iff. split; [|eauto].
+        unfold len. rewrite Hl. apply legal_count_k. exists k. auto. }
+    cbn [negb]. rewrite fields_trim_space.
+    assert (Ln : len (fields s) = 3 * Z.of_nat k) by (unfold len; rewrite Hl; lia).
+    rewrite Ln.
+    replace (3 * Z.of_nat k * 11 mod 32) with (Z.of_nat k) by (Z.div_mod_to_equations; lia).
+    replace ((3 * Z.of_nat k * 11 - Z.of_nat k) / 8 + 1) with (4 * Z.of_nat k + 1)
+      by (Z.div_mod_to_equations; lia).
+    replace (4 * Z.of_nat k + 1 - (4 * Z.of_nat k + 1) mod 4) with (4 * Z.of_nat k)
+      by (Z.div_mod_to_equations; lia).
+    rewrite (fold_index0 _ idxs 0 F). fold (sval idxs). fold N. fold e0.
+    (* bounds *)
+    pose proof (sval_bounds idxs (index_bounds _ _ F)) as BN. fold N in BN.
+    assert (Li : len idxs = 3 * Z.of_nat k).
+    { unfold len. rewrite <- (Forall2_len _ _ _ F), Hl. lia. }
+    rewrite Li in BN. change 2048 with (2 ^ 11) in BN. rewrite <- Z.pow_mul_r in BN by lia.
+    replace (11 * (3 * Z.of_nat k)) with (Z.of_nat (11 * (3 * k))) in BN by lia.
+    rewrite pow2_33k in BN.
+    assert (P2 : 0 < 2 ^ Z.of_nat k) by (apply Z.pow_pos_nonneg; lia).
+    assert (P2' : 2 ^ Z.of_nat k <= 256).
+    { change 256 with (2 ^ 8). apply Z.pow_le_mono_r; lia. }
+    assert (P256 : 0 < 256 ^ (4 * Z.of_nat k)) by (apply Z.pow_pos_nonneg; lia).
+    assert (BD : 0 <= N / 2 ^ Z.of_nat k < 256 ^ (4 * Z.of_nat k)).
+    { split; [apply Z.div_pos; lia|]. apply Z.div_lt_upper_bound; lia. }
+    destruct (pad_be_bytes _ _ BD ltac:(lia)) as (Ok0 & V0 & L0). fold e0 in Ok0, V0, L0.
+    rewrite (add_checksum_spec H H_wf e0 k Ok0); [| |lia].
+    2:{ rewrite L0, Z.mul_comm, Z.div_mul by lia. reflexivity. }
+    rewrite V0.
+    destruct (checksum_facts k (hash0 H e0) ltac:(lia) (hash0_byte H H_wf e0)) as (_ & _ & Bc).
+    set (c := csv k (hash0 H e0)) in *.
+    pose proof (Z.div_mod N (2 ^ Z.of_nat k) ltac:(lia)) as DM.
+    pose proof (Z.mod_pos_bound N (2 ^ Z.of_nat k) P2) as MB.
+    assert (P257 : 256 ^ (4 * Z.of_nat k + 1) = 256 * 256 ^ (4 * Z.of_nat k))
+      by (rewrite Z.pow_add_r, Z.pow_1_r by lia; lia).
+    destruct (N mod 2 ^ Z.of_nat k =? c) eqn:C; bool_hyps.
+    - replace (N / 2 ^ Z.of_nat k * 2 ^ Z.of_nat k + c) with N by lia.
+      rewrite bytes_eqb_refl. reflexivity.
+    - replace (bytes_eqb _ _) with false; [reflexivity|].
+      symmetry. apply bytes_eqb_neq. intros E.
+      apply pad_be_bytes_inj in E; [lia| | |lia]; rewrite P257; nia.
+  Qed.
+
+  Theorem mtba_raw_accept_iff s e :
+    mnemonic_to_byte_array H true s = Ok e <-> valid_sentence H (fields s) e.
+  Proof.
+    rewrite <- efm_accept_iff.
+    destruct (is_mnemonic_valid s) eqn:V.
+    - apply is_mnemonic_valid_iff in V. destruct V as (LC & idxs & F).
+      unfold len in LC. apply legal_count_k in LC. destruct LC as (k & Hk & Hl).
+      rewrite (mtba_eval true s k idxs Hk Hl F), (efm_eval s k idxs Hk Hl F). reflexivity.
+    - rewrite mtba_invalid by exact V. split; [discriminate|]. intros E. exfalso.
+      apply efm_accept_iff in E. destruct E as (Lw & _ & idxs & Fn & _).
+      apply legal_words_k in Lw. destruct Lw as (k & Hk & Hl).
+      destruct (index_Z_of_nat _ _ Fn) as (F & _).
+      assert (is_mnemonic_valid s = true); [|congruence].
+      apply is_mnemonic_valid_iff. split; [|eauto]. unfold len. rewrite Hl. apply legal_count_k. eauto.
+  Qed.
+
+  (* without the raw flag: the ENT+CS bit string as a number, on len e + 1 bytes *)
+  Theorem mtba_accept_iff s b :
+    mnemonic_to_byte_array H false s = Ok b <->
+    exists e, valid_sentence H (fields s) e /\
+              b = pad_bytes (be_bytes (bits_val (bits e ++ checksum_bits H e))) (len e + 1).
+  Proof.
+    destruct (is_mnemonic_valid s) eqn:V.
+    - apply is_mnemonic_valid_iff in V. destruct V as (LC & idxs & F).
+      unfold len in LC. apply legal_count_k in LC. destruct LC as (k & Hk & Hl).
+      pose proof (mtba_eval false s k idxs Hk Hl F) as E1.
+      pose proof (mtba_eval true s k idxs Hk Hl F) as E2. cbv zeta in E1, E2.
+      set (N := sval idxs) in *. set (e0 := pad_bytes (be_bytes (N / 2 ^ Z.of_nat k)) (4 * Z.of_nat k)) in *.
+      destruct (index_nat_of_Z _ _ F) as (Fn & Mz & Bn).
+      assert (VN : forall e, valid_sentence H (fields s) e ->
+                 e = e0 /\ bits_val (bits e ++ checksum_bits H e) = N /\ len e = 4 * Z.of_nat k).
+      { intros e Ve. pose proof Ve as Ve'. apply mtba_raw_accept_iff in Ve'. rewrite E2 in Ve'.
+        destruct (_ =? _) in Ve'; [|discriminate]. injection Ve' as <-. split; [reflexivity|].
+        destruct Ve as (_ & _ & idxs' & Fn' & Eb). rewrite <- Eb.
+        assert (idxs' = map Z.to_nat idxs) as ->.
+        { clear - Fn Fn'. revert idxs' Fn'. induction Fn as [|w i ws is_ Hw Hr IH]; intros idxs' F';
+            inversion F' as [|? i' ? is' Hw' Hr']; subst; [reflexivity|].
+          f_equal; [|apply IH; exact Hr'].
+          apply word_index_of_nth in Hw. apply word_index_of_nth in Hw'. rewrite Hw in Hw'.
+          injection Hw' as E. lia. }
+        rewrite sval_bits, map_mod_small, Mz by exact Bn. split; [reflexivity|].
+        assert (BD : 0 <= N / 2 ^ Z.of_nat k < 256 ^ (4 * Z.of_nat k)).
+        { pose proof (sval_bounds idxs (index_bounds _ _ F)) as BN. fold N in BN.
+          assert (Li : len idxs = 3 * Z.of_nat k).
+          { unfold len. rewrite <- (Forall2_len _ _ _ F), Hl. lia. }
+          rewrite Li in BN. change 2048 with (2 ^ 11) in BN. rewrite <- Z.pow_mul_r in BN by lia.
+          replace (11 * (3 * Z.of_nat k)) with (Z.of_nat (11 * (3 * k))) in BN by lia.
+          rewrite pow2_33k in BN.
+          assert (P2 : 0 < 2 ^ Z.of_nat k) by (apply Z.pow_pos_nonneg; lia).
+          split; [apply Z.div_pos; lia|]. apply Z.div_lt_upper_bound; lia. }
+        apply (pad_be_bytes _ _ BD ltac:(lia)). }
+      split.
+      + intros E. rewrite E1 in E. destruct (_ =? _) eqn:C in E; [|discriminate]. injection E as <-.
+        assert (Ve : valid_sentence H (fields s) e0) by (apply mtba_raw_accept_iff; rewrite E2, C; reflexivity).
+        exists e0. split; [exact Ve|]. destruct (VN e0 Ve) as (_ & -> & ->). reflexivity.
+      + intros (e & Ve & ->). destruct (VN e Ve) as (-> & -> & ->).
+        apply mtba_raw_accept_iff in Ve. rewrite E2 in Ve. rewrite E1.
+        destruct (_ =? _); [reflexivity|discriminate].
+    - rewrite mtba_invalid by exact V. split; [discriminate|]. intros (e & Ve & _). exfalso.
+      apply mtba_raw_accept_iff in Ve. rewrite mtba_invalid in Ve by exact V. discriminate.
+  Qed.
+  (* ---------------------------------------------------------------- IsMnemonicValid: what it is *)
+
+  Lemma word_index_in w : (exists i, word_index w = Some i) <-> In w wordlist.
+  Proof.
+    split.
+    - intros (i & E). apply word_index_some in E. destruct E as (_ & E). eapply nth_error_In. exact E.
+    - intros I. apply In_nth_error in I. destruct I as (n & E). exists (Z.of_nat n). apply word_index_of_nth. exact E.
+  Qed.
+
+  Theorem is_mnemonic_valid_spec s : is_mnemonic_valid s = true <->
+    (length (fields s) = 12 \/ length (fields s) = 15 \/ length (fields s) = 18 \/
+     length (fields s) = 21 \/ length (fields s) = 24)%nat /\
+    Forall (fun w => In w wordlist) (fields s).
+  Proof.
+    rewrite is_mnemonic_valid_iff, legal_words_k. unfold len. rewrite legal_count_k.
+    apply and_iff_compat_l. generalize (fields s) as ws. induction ws as [|w r IH].
+    - split; [constructor|]. exists []. constructor.
+    - split.
+      + intros (idxs & F). inversion F as [|? i ? is_ Hw Hr]; subst. constructor.
+        * apply word_index_in. eauto.
+        * apply IH. eauto.
+      + intros F. inversion F as [|? ? Hw Hr]; subst. apply word_index_in in Hw. destruct Hw as (i & Hw).
+        apply IH in Hr. destruct Hr as (idxs & Fr). exists (i :: idxs). constructor; auto.
+  Qed.
+
+  (* ---------------------------------------------------------------- seeds *)
+
+  Variable PBKDF2 : bytes -> bytes -> Z -> Z -> bytes.
+  Variable NFKD : bytes -> bytes.
+
+  Lemma new_seed_def m p :
+    new_seed PBKDF2 m p = PBKDF2 (join_sp (fields m)) (mnemonic_lit ++ p) 2048 64.
+  Proof. reflexivity. Qed.
+
+  Theorem new_seed_is_bip39 m p : NFKD p = p ->
+    new_seed PBKDF2 m p = bip39_seed PBKDF2 NFKD (fields m) p.
+  Proof. intros Hp. unfold bip39_seed. rewrite Hp. reflexivity. Qed.
+
+  Theorem new_seed_checked_iff m p sd :
+    new_seed_with_error_checking H PBKDF2 m p = Ok sd <->
+    (exists e, valid_sentence H (fields m) e) /\
+    sd = PBKDF2 (join_sp (fields m)) (mnemonic_lit ++ p) 2048 64.
+  Proof.
+    unfold new_seed_with_error_checking, new_seed_with_error_checking_gen.
+    destruct (mnemonic_to_byte_array H false m) as [b|er|] eqn:E.
+    - apply mtba_accept_iff in E. destruct E as (e & Ve & _). split.
+      + intros S. injection S as <-. split; [eauto|reflexivity].
+      + intros (_ & ->). reflexivity.
+    - split; [discriminate|]. intros ((e & Ve) & _). exfalso.
+      assert (exists b, mnemonic_to_byte_array H false m = Ok b) as (b & Eb)
+        by (eexists; apply mtba_accept_iff; eauto). congruence.
+    - split; [discriminate|]. intros ((e & Ve) & _). exfalso.
+      assert (exists b, mnemonic_to_byte_array H false m = Ok b) as (b & Eb)
+        by (eexists; apply mtba_accept_iff; eauto). congruence.
+  Qed.
+
+  (* the code as first found: the raw string is the password. For every entropy there is an accepted
+     sentence (the mnemonic with one leading space) whose seed is not the BIP-39 seed of its words,
+     whatever collision-free key derivation function is used. *)
+  Theorem new_seed_unfixed_refuted e : legal_len e -> bytes_ok e ->
+    exists m, entropy_from_mnemonic H m = Ok e /\
+      forall p, NFKD p = p ->
+        (forall a b s i k, PBKDF2 a s i k = PBKDF2 b s i k -> a = b) ->
+        new_seed_unfixed PBKDF2 m p <> bip39_seed PBKDF2 NFKD (fields m) p.
+  Proof.
+    intros LL He. destruct (spec_encode_valid e LL He) as (ws & _ & V & P).
+    assert (F : fields (32 :: join_sp ws) = ws).
+    { unfold fields. cbn [fields_go]. change (space_width (32 :: join_sp ws)) with 1%nat. cbv beta iota.
+      unfold flush. apply (fields_join ws P). }
+    exists (32 :: join_sp ws). split.
+    - apply efm_accept_iff. rewrite F. exact V.
+    - intros p Hp Inj E. unfold new_seed_unfixed, new_seed_gen, bip39_seed in E. rewrite Hp, F in E.
+      apply Inj in E. apply (f_equal (@length Z)) in E. cbn [length] in E. lia.
+  Qed.
+  (* ---------------------------------------------------------------- the executable form of the specification *)
+
+  Lemma first_index_some w l : forall i j, first_index w l i = Some j ->
+    (i <= j)%nat /\ nth_error l (j - i) = Some w.
+  Proof.
+    induction l as [|x r IH]; intros i j E; [discriminate|].
+    cbn [first_index] in E. destruct (bytes_eqb x w) eqn:B.
+    - injection E as <-. apply bytes_eqb_eq in B. subst. rewrite Nat.sub_diag. split; [lia|reflexivity].
+    - apply IH in E. destruct E as (Le & E). split; [lia|].
+      replace (j - i)%nat with (S (j - S i)) by lia. exact E.
+  Qed.
+
+  Lemma first_index_nodup w l : forall i n, NoDup l -> nth_error l n = Some w ->
+    first_index w l i = Some (i + n)%nat.
+  Proof.
+    induction l as [|x r IH]; intros i n ND E; [destruct n; discriminate|].
+    inversion ND as [|? ? Nx NDr]; subst. cbn [first_index]. destruct n as [|n].
+    - cbn in E. injection E as ->. rewrite bytes_eqb_refl. f_equal. lia.
+    - cbn [nth_error] in E. replace (bytes_eqb x w) with false.
+      + rewrite (IH (S i) n NDr E). f_equal. lia.
+      + symmetry. apply bytes_eqb_neq. intros ->. apply Nx. eapply nth_error_In. exact E.
+  Qed.
+
+  Lemma all_indexes_some ws : forall idxs, all_indexes ws = Some idxs ->
+    Forall2 (fun w i => nth_error wordlist i = Some w) ws idxs.
+  Proof.
+    induction ws as [|w r IH]; intros idxs E.
+    - cbn in E. injection E as <-. constructor.
+    - cbn [all_indexes] in E. destruct (first_index w wordlist 0) as [i|] eqn:Fi; [|discriminate].
+      destruct (all_indexes r) as [is_|]; [|discriminate]. injection E as <-.
+      constructor; [|apply IH; reflexivity].
+      apply first_index_some in Fi. destruct Fi as (_ & Fi). rewrite Nat.sub_0_r in Fi. exact Fi.
+  Qed.
+
+  Lemma all_indexes_complete ws idxs : Forall2 (fun w i => nth_error wordlist i = Some w) ws idxs ->
+    all_indexes ws = Some idxs.
+  Proof.
+    induction 1 as [|w i ws idxs Hw Hr IH]; [reflexivity|].
+    cbn [all_indexes]. rewrite (first_index_nodup w wordlist 0 i wordlist_nodup Hw), IH. reflexivity.
+  Qed.
+
+  Lemma bits_eqb_eq a : forall b, bits_eqb a b = true <-> a = b.
+  Proof.
+    induction a as [|x a IH]; intros [|y b]; cbn; split; intros E; try discriminate; auto.
+    - apply andb_true_iff in E. destruct E as [E1 E2]. apply eqb_prop in E1. apply IH in E2. congruence.
+    - injection E as -> ->. rewrite eqb_reflx. cbn. apply IH. reflexivity.
+  Qed.
+
+  Lemma bytes_of_bits_bits e : bytes_ok e -> bytes_of_bits (length e) (bits e) = e.
+  Proof.
+    induction 1 as [|b r Hb Hr IH]; [reflexivity|].
+    cbn [length bytes_of_bits]. change (bits (b :: r)) with (bits_of 8 b ++ bits r).
+    rewrite firstn_app, bits_of_length, Nat.sub_diag, firstn_O, app_nil_r.
+    rewrite firstn_all2 by (rewrite bits_of_length; lia).
+    rewrite skipn_app, bits_of_length, Nat.sub_diag, skipn_O.
+    rewrite skipn_all2 by (rewrite bits_of_length; lia). cbn [app]. rewrite IH.
+    unfold is_byte in Hb. rewrite bits_val_bits_of by lia. rewrite Z.mod_small by (cbn; lia). reflexivity.
+  Qed.
+
+  Lemma bits_bytes_of_bits m : forall l, length l = (8 * m)%nat ->
+    bits (bytes_of_bits m l) = l /\ bytes_ok (bytes_of_bits m l).
+  Proof.
+    induction m as [|m IH]; intros l Hl.
+    - destruct l; [split; [reflexivity|constructor]|discriminate].
+    - cbn [bytes_of_bits]. destruct (IH (skipn 8 l)) as (A & B); [rewrite skipn_length; lia|].
+      assert (L8 : length (firstn 8 l) = 8%nat) by (rewrite firstn_length; lia).
+      split.
+      + change (bits (?x :: ?r)) with (bits_of 8 x ++ bits r). rewrite A.
+        rewrite <- L8 at 1. rewrite bits_of_bits_val. apply firstn_skipn.
+      + constructor; [|exact B]. pose proof (bits_val_bounds (firstn 8 l)) as Bv.
+        unfold len in Bv. rewrite L8 in Bv. exact Bv.
+  Qed.
+
+  Lemma sentence_len e (idxs : list nat) k : (4 <= k <= 8)%nat -> length idxs = (3 * k)%nat ->
+    flat_map (fun i => bits_of 11 (Z.of_nat i)) idxs = bits e ++ checksum_bits H e -> length e = (4 * k)%nat.
+  Proof.
+    intros Hk Hl E. apply (f_equal (@length bool)) in E.
+    rewrite flat_bits11_length, Hl, app_length, bits_length in E.
+    unfold checksum_bits in E. rewrite firstn_length, bits_length in E.
+    destruct (H_wf e) as (h0 & rest & EH & _). rewrite EH in E. cbn [length] in E.
+    destruct (div8_32 (length e)) as (q & r & A & B & C). rewrite C in E. lia.
+  Qed.
+
+  Lemma legal_countb_k n : existsb (Nat.eqb n) [12; 15; 18; 21; 24]%nat = true <->
+    exists k, (4 <= k <= 8)%nat /\ n = (3 * k)%nat.
+  Proof.
+    cbn [existsb]. rewrite !orb_true_iff, !Nat.eqb_eq. split.
+    - intros [E|[E|[E|[E|[E|E]]]]]; [exists 4%nat|exists 5%nat|exists 6%nat|exists 7%nat|exists 8%nat|discriminate]; lia.
+    - intros (k & Hk & ->). lia.
+  Qed.
+
+  Lemma ent_of_k k : (3 * k / 3 * 32 = 8 * (4 * k))%nat.
+  Proof. rewrite (Nat.mul_comm 3 k), Nat.div_mul by lia. lia. Qed.
+  Lemma div8_k k : (8 * (4 * k) / 8 = 4 * k)%nat.
+  Proof. rewrite (Nat.mul_comm 8), Nat.div_mul by lia. reflexivity. Qed.
+
+  Theorem spec_decode_iff ws e : spec_decode H ws = Some e <-> valid_sentence H ws e.
+  Proof.
+    unfold spec_decode, valid_sentence. split.
+    - intros E. destruct (existsb _ _) eqn:LC in E; [|discriminate].
+      apply legal_countb_k in LC. destruct LC as (k & Hk & Hl).
+      destruct (all_indexes ws) as [idxs|] eqn:AI; [|discriminate].
+      apply all_indexes_some in AI.
+      assert (Li : length idxs = (3 * k)%nat) by (rewrite <- (Forall2_len _ _ _ AI); exact Hl).
+      rewrite Hl in E.
+      rewrite ent_of_k, div8_k in E.
+      set (all := flat_map (fun i => bits_of 11 (Z.of_nat i)) idxs) in *.
+      assert (La : length all = (11 * (3 * k))%nat) by (unfold all; rewrite flat_bits11_length, Li; reflexivity).
+      destruct (bits_bytes_of_bits (4 * k) (firstn (8 * (4 * k)) all)) as (Bb & Bok).
+      { rewrite firstn_length. lia. }
+      destruct (bits_eqb _ _) eqn:C in E; [|discriminate]. injection E as <-.
+      apply bits_eqb_eq in C.
+      split; [apply legal_words_k; eauto|]. split; [exact Bok|].
+      exists idxs. split; [exact AI|]. fold all. rewrite Bb, <- C. symmetry. apply firstn_skipn.
+    - intros (Lw & Ok_ & idxs & Fn & Eb).
+      apply legal_words_k in Lw. destruct Lw as (k & Hk & Hl).
+      replace (existsb _ _) with true by (symmetry; apply legal_countb_k; eauto).
+      rewrite (all_indexes_complete _ _ Fn).
+      assert (Li : length idxs = (3 * k)%nat) by (rewrite <- (Forall2_len _ _ _ Fn); exact Hl).
+      pose proof (sentence_len e idxs k Hk Li Eb) as Le.
+      rewrite Hl.
+      rewrite ent_of_k, div8_k.
+      rewrite Eb.
+      assert (Lb : length (bits e) = (8 * (4 * k))%nat) by (rewrite bits_length, Le; reflexivity).
+      rewrite firstn_app, Lb, Nat.sub_diag, firstn_O, app_nil_r.
+      rewrite firstn_all2 by lia.
+      rewrite skipn_app, Lb, Nat.sub_diag, skipn_O. rewrite skipn_all2 by lia. cbn [app].
+      rewrite <- Le, bytes_of_bits_bits by exact Ok_.
+      replace (bits_eqb _ _) with true by (symmetry; apply bits_eqb_eq; reflexivity). reflexivity.
+  Qed.
 End Main.
